@@ -10,6 +10,7 @@ import (
 	"bytes"
 	"context"
 	"fmt"
+	enumspb "go.temporal.io/api/enums/v1"
 	"testing"
 
 	"google.golang.org/grpc"
@@ -42,6 +43,9 @@ type c16Case struct {
 	GarbageFirst bool `json:"garbage_first,omitempty"`
 	// IntraMarker: the caller also sets the intra-proxy marker headers (any remote caller can)
 	IntraMarker bool `json:"intra_marker,omitempty"`
+	// FakeType: (blob paths) every event inside the blobs declares a harmless event_type (workflow execution signaled)
+	// whatever its attributes are - a crafted blob: the remote side controls these bytes
+	FakeType bool `json:"fake_type,omitempty"`
 }
 
 // c16PrependGarbage puts an undecodable blob in front of every repeated event-blob field that holds something.
@@ -50,7 +54,10 @@ func c16PrependGarbage(m protoreflect.Message) int {
 	m.Range(func(fd protoreflect.FieldDescriptor, v protoreflect.Value) bool {
 		if fd.IsMap() {
 			if fd.MapValue().Message() != nil {
-				v.Map().Range(func(_ protoreflect.MapKey, mv protoreflect.Value) bool { n += c16PrependGarbage(mv.Message()); return true })
+				v.Map().Range(func(_ protoreflect.MapKey, mv protoreflect.Value) bool {
+					n += c16PrependGarbage(mv.Message())
+					return true
+				})
 			}
 			return true
 		}
@@ -133,6 +140,9 @@ func c16Run(c c16Case) error {
 		c12AddCompanion(req.ProtoReflect())
 	}
 	vfshared.FillEmptyNamespaces(req.ProtoReflect(), allowedName)
+	if c.FakeType {
+		vfshared.RetypeBlobEvents(req.ProtoReflect(), enumspb.EVENT_TYPE_WORKFLOW_EXECUTION_SIGNALED)
+	}
 	if c.JSONBlobs {
 		vfshared.ReencodeBlobsAsJSON(req.ProtoReflect())
 	}
@@ -376,6 +386,14 @@ func TestVF_C16_Paths(t *testing.T) {
 							st.Case(vfshared.Fingerprint(cg), true, "forbidden_behind_an_uninspectable_batch")
 						}
 						if viaBlob {
+							cf := c
+							cf.FakeType = true
+							if err := c16Run(cf); err != nil {
+								c16Fail(t, st, part, cf, err)
+							}
+							st.Case(vfshared.Fingerprint(cf), forbidden, "events_declare_a_harmless_event_type")
+						}
+						if viaBlob {
 							cj := c
 							cj.JSONBlobs = true
 							if err := c16Run(cj); err != nil {
@@ -463,6 +481,7 @@ func TestVF_C16_Random(t *testing.T) {
 		c.Companion = rapid.Bool().Draw(rt, "companion")
 		c.Repairable = rapid.IntRange(0, 3).Draw(rt, "repairable") == 0
 		c.IntraMarker = rapid.IntRange(0, 3).Draw(rt, "intra") == 0
+		c.FakeType = rapid.IntRange(0, 4).Draw(rt, "fakeType") == 0
 		// merging several paths that share a oneof would let the later branch win and drop the earlier leaf
 		if err := c16Run(c); err != nil {
 			c16Fail(rt, st, part, c, err)
